@@ -634,7 +634,11 @@ func runC09(c *core.Ctx) {
 		}()
 		c.Check(ok, "R4", "DefaultWorkerPool.Schedule", p.Pos(sched.Pos()), detail, detail)
 	}
-	if swt := p.Method(p.Worker, "DefaultWorkerPool", "ScheduleWithTimeout"); swt == nil || sched == nil {
+	swtDecl := p.Method(p.Worker, "DefaultWorkerPool", "ScheduleWithTimeout")
+	if swtDecl != nil {
+		swtDecl = core.SameParamsImpl(p, swtDecl) // `ScheduleWithTimeout(fn, d)` may be `Schedule…General(fn, d, 0)`
+	}
+	if swt := swtDecl; swt == nil || sched == nil {
 		c.Unknown("R4", "DefaultWorkerPool.ScheduleWithTimeout", "-", "method not found")
 	} else {
 		c.Analysed(core.FuncName(swt))
@@ -721,6 +725,7 @@ func runC09(c *core.Ctx) {
 			continue
 		}
 		c.Analysed(core.FuncName(f))
+		f = core.SameParamsImpl(p, f) // `Invoke(v)` may only hand v on (`TryInvoke(v)`, result dropped)
 		// the closure is handed to the pool's Schedule*/ exactly once
 		nS := 0
 		var job *core.BoundClosure
